@@ -73,6 +73,10 @@ func genTransfer(rt *rapid.T, o vfGenOpts, maxWrites int, maxChunks int, faultIn
 				Off: uint32(rapid.IntRange(0, 40).Draw(rt, "roff")), J: rapid.IntRange(1, 3).Draw(rt, "rj")})
 		}
 	}
+	// a quarter of the scenarios start with SSN / MID cursors just below their 16/32-bit wrap
+	if rapid.IntRange(0, 3).Draw(rt, "seqpreset") == 0 {
+		sc.SeqPreset = uint32(0) - uint32(rapid.IntRange(1, 6).Draw(rt, "seqd"))
+	}
 	return sc
 }
 
